@@ -21,7 +21,9 @@ callback):
 * global-chain versions that do not need the per-variable half: `mutate_p_global`,
   `refine_step_partial`, `refine_step_partial_of_Inv`, `refine_seq_partial`,
   `cursor_correct_partial`; `new_inv`, `inv_implies_global`, `endsOK_of_inv`
-* `install_refines`   `new_from_ops` on a strictly increasing op list builds the canonical container
+* `install_refines`   `new_from_ops` on a strictly increasing op list builds the canonical container;
+                  `install_rejects_iff` / `strictIncr_iff`: the model rejects (Rust: `assert!` panics)
+                  exactly the lists whose positions are not strictly increasing
 * `refine_step` also covers `sweepArgs` (args = `get_empty_args(All | Varlist | Args)` +
                   NON-hint `fill_args_at_p` + `mutate_subsection(…, Some(args))`) and `sweepOpsArgsAll`;
                   `sub_cursor_correct`, `varlist_unfilled`, `mutate_p_sub_refines` (Varlist cursors),
@@ -410,6 +412,44 @@ theorem install_refines (nv : Nat) (l : List (Nat × Op)) (hne : l ≠ [])
     FastOps.newFromOps nv l = canon nv none (slotsOf l) :=
   newFromOps_canon nv l hne hsorted hok
 
+/-- the decidable precondition of `new_from_ops`: the per-element `assert!(p > last_p)` is exactly
+"positions strictly increasing" (no descending pair, no duplicate) -/
+theorem strictIncr_iff (l : List Nat) : strictIncr l = true ↔ l.Pairwise (· < ·) := by
+  induction l with
+  | nil => simp [strictIncr]
+  | cons a t ih =>
+    cases t with
+    | nil => simp [strictIncr]
+    | cons b t' =>
+      simp only [strictIncr, Bool.and_eq_true, decide_eq_true_eq, ih, List.pairwise_cons]
+      constructor
+      · rintro ⟨hab, hb, ht⟩
+        refine ⟨?_, hb, ht⟩
+        intro x hx
+        cases hx with
+        | head => exact hab
+        | tail _ hx => exact Nat.lt_trans hab (hb x hx)
+      · rintro ⟨ha, hb, ht⟩
+        exact ⟨ha b (by simp), hb, ht⟩
+
+/-- the model of `new_from_ops` rejects (`none` = the Rust `assert!` panics) EXACTLY the lists whose
+positions are not strictly increasing: descending pairs, duplicates, one inversion anywhere -/
+theorem install_rejects_iff (nv : Nat) (l : List (Nat × Op)) :
+    FastOps.newFromOpsChecked nv l = none ↔ ¬ (l.map (·.1)).Pairwise (· < ·) := by
+  unfold FastOps.newFromOpsChecked
+  rw [← strictIncr_iff]
+  cases strictIncr (l.map (·.1)) <;> simp
+
+/-- an accepted well-formed list is installed as the canonical container -/
+theorem install_checked_refines (nv : Nat) (l : List (Nat × Op)) (hne : l ≠ [])
+    (hsorted : (l.map (·.1)).Pairwise (· < ·)) (hok : ∀ x ∈ l, OpOK nv none x.2) :
+    FastOps.newFromOpsChecked nv l = some (canon nv none (slotsOf l)) := by
+  unfold FastOps.newFromOpsChecked
+  rw [(strictIncr_iff _).mpr hsorted]
+  simp only [if_true]
+  congr 1
+  exact install_refines nv l hne hsorted hok
+
 theorem install_empty (nv : Nat) : FastOps.newFromOps nv [] = FastOps.new nv none := rfl
 
 /-- `get_nth_p(k)` is the `k % n`-th occupied slot (counting from 0, in slot order) -/
@@ -556,6 +596,15 @@ example : subDemo.pEnds = some (1, 2) ∧ subDemo.n = 2 := by decide
 example : ((applyC (applyC (FastOps.new 4 none) (.setCutoff 6 : Mut Nat))
     (.setSlot 1 (some (Op.diagonal [2, 3] 0 [false, false] false)) : Mut Nat)).getEmptyArgsVarlist [3, 2]).unfilled = 2 := by
   decide
+
+/-- malformed install lists are rejected by the model (as by the `assert!`): descending, duplicate,
+one inversion inside a sorted list, equal adjacent at the end; well-formed controls are accepted -/
+example : FastOps.newFromOpsChecked 3 [(3, opA), (1, opC)] = none := by decide
+example : FastOps.newFromOpsChecked 3 [(1, opA), (1, opC)] = none := by decide
+example : FastOps.newFromOpsChecked 3 [(0, opA), (2, opC), (1, opB), (4, opC)] = none := by decide
+example : FastOps.newFromOpsChecked 3 [(0, opA), (2, opC), (2, opB)] = none := by decide
+example : (FastOps.newFromOpsChecked 3 [(0, opA), (2, opC), (5, opB)]).isSome = true := by decide
+example : (FastOps.newFromOpsChecked 3 []).isSome = true := by decide
 
 /-- EXCLUDED POINT 1 (ops without variables): the early exit of `fill_args_at_p` leaves
 `last_p = None` although slot 0 is occupied; the next insertion corrupts the global chain.
